@@ -1184,13 +1184,14 @@ func (s *session) checkHidden(pre, post *snap, x *txSpec, outcome string, line s
 	bad := ""
 	for _, i := range sortedKeys(post.accts) {
 		a, b := pre.acct(i), post.accts[i]
-		if a.sqlrp != b.sqlrp {
+		deploys := outcome == "applied" && i == rc && x.typ != types.TxType_GOVERNANCE && (x.rcpt < 0 || x.typ == types.TxType_REDEPLOY)
+		// CreateAccountState gives a new contract account recovery point 1; nothing else moves it here
+		if a.sqlrp != b.sqlrp && !(deploys && x.rcpt < 0 && b.sqlrp == 1) {
 			bad = fmt.Sprintf("SQL recovery point of account %d changed", i)
 		}
 		if a.codeHash == b.codeHash && a.codeSum == b.codeSum {
 			continue
 		}
-		deploys := outcome == "applied" && i == rc && x.typ != types.TxType_GOVERNANCE && (x.rcpt < 0 || x.typ == types.TxType_REDEPLOY)
 		want := hex.EncodeToString(common.Hasher(x.payload))
 		if !deploys {
 			bad = fmt.Sprintf("the code of account %d changed without a successful deploy of it (%s tx)", i, outcome)
@@ -1240,13 +1241,9 @@ func (s *session) checkTally(post *snap, line string) {
 // The two name-contract shapes this check found (v1setOwner to the sender; a paid name tx while
 // aergo.name owns itself) are repaired in /repo: they are ordinary violations now.
 func (s *session) classify(x *txSpec, pre *snap) string {
-	// A transaction sent under a NAME whose destination is a contract is signed by the name's owner (the
-	// contract's creator) and executed with the contract account as the sender. If its recipient is that
-	// same contract, executeTx holds two AccountState records of one account, the VM debits the receiver's
-	// record and the success branch writes the sender's only.
-	if x.admissible && x.asName > 0 && x.rcpt == x.sender && pre.acct(x.sender).code {
-		return "name-owner-sends-as-contract-to-itself"
-	}
+	// (The shape this check found - a tx sent under a NAME whose destination is a contract, addressed to that
+	// contract, worked on two records of the one account and minted what the script sent away - is repaired in
+	// /repo (343afa85): it is an ordinary violation now.)
 	return ""
 }
 
